@@ -260,3 +260,38 @@ func VerifC17NonBlockingRace() {
 	verifAssert(gauge.Value() == room, "dropped-only-when-the-buffer-was-full")
 	verifCover("end")
 }
+
+// VerifC17EarlyShutdown: the route built by the real NewGrafanaNet is shut down right after it was created and
+// handed a few metrics, before its shard workers have run at all (the harness does not yield in between).
+// Shutdown must still return only after everything buffered was acknowledged.
+func VerifC17EarlyShutdown() {
+	dir := verifTempDir()
+	verifWriteFile(dir+"/storage-schemas.conf", "[default]\npattern = .*\nretentions = 10s:1d\n")
+	verifWriteFile(dir+"/storage-aggregation.conf", "[default]\npattern = .*\nxFilesFactor = 0.5\naggregationMethod = avg\n")
+	cfg, err := NewGrafanaNetConfig("http://localhost/metrics", "key", dir+"/storage-schemas.conf", dir+"/storage-aggregation.conf")
+	if err != nil {
+		panic(err)
+	}
+	cfg.Concurrency = 1 + verifChoice("concurrency", 2)
+	cfg.BufSize = 8
+	cfg.FlushMaxNum = 10
+	cfg.Timeout = time.Second
+	m, _ := matcher.New("", "", "", "", "", "")
+	verifHTTPMaxFailures(0)
+	rr, err := NewGrafanaNet("gnet", m, cfg)
+	if err != nil {
+		panic(err)
+	}
+	r := rr.(*GrafanaNet)
+	n := 1 + verifChoice("nlines", 3)
+	names := []string{"a.x", "b.y", "c.z"}
+	for i := 0; i < n; i++ {
+		r.Dispatch([]byte(names[i] + " 1 1500000000"))
+	}
+	err = r.Shutdown()
+	verifAssert(err == nil, "shutdown-no-error")
+	if verifIsSymbolic() {
+		verifAssert(strings.Count(string(verifHTTPAcked()), "\n") == n, "structural/shutdown-right-after-start-flushed-everything-buffered")
+	}
+	verifCover("end")
+}
